@@ -133,6 +133,17 @@ def run_trace(ctx, st):
         res["violations"].append(dict(replay=path, why="the Go race detector reported a data race during the free-running stress: " +
                                       " ".join(p.stderr.split("\n")[:12])[:600]))
         return res
+    if p.returncode != 0 and "fatal error:" in p.stderr:
+        # the Go runtime aborted the recorder (e.g. "concurrent map read and map write"): a verdict about the code only if the
+        # faulting goroutine was executing the library, not the harness
+        m = re.search(r"fatal error: ([^\n]*)\n(?:.*\n)*?goroutine \d+ \[running\]:\n((?:.*\n){1,40})", p.stderr)
+        frames = [l for l in (m.group(2).split("\n") if m else []) if l and not l.startswith("\t")]
+        user = [f for f in frames if not f.startswith("runtime.") and not f.startswith("internal/")]
+        if m and user and user[0].startswith("github.com/advancedclimatesystems/gonnx"):
+            path = os.path.join(ctx["replaydir"], "%s-fatal-%s.txt" % (ctx["pid"], st["name"]))
+            open(path, "w").write(p.stderr[-20000:])
+            res["violations"].append(dict(replay=path, why="the Go runtime aborted the process while it was executing the library: fatal error: %s (in %s)" % (m.group(1), user[0][:120])))
+            return res
     if p.returncode != 0 or not os.path.exists(tracefile):
         res["infra"].append("recorder failed rc=%d: %s %s" % (p.returncode, p.stdout[-1500:], p.stderr[-1500:]))
         return res
